@@ -138,6 +138,8 @@ type ndRun struct {
 	rejected bool
 	// pruned: roots of versions pruned so far (for attributing failures to the shared-node finding).
 	pruned []*mRoot
+	// modelOnly: apply operations to the model only (the database already holds their effect).
+	modelOnly bool
 }
 
 // sharedWithLonePrunedRoot reports whether the pair (key, val) is also held by a root of a
@@ -355,6 +357,21 @@ func (r *ndRun) apply(op NDOp) *core.Violation {
 			parentRoot = parent.root
 			contents = parent.contents.Clone()
 		}
+		if r.modelOnly {
+			for _, w := range op.Writes {
+				key := r.keys[w.Key%len(r.keys)]
+				if w.Rm {
+					delete(contents, string(key))
+				} else {
+					contents[string(key)] = Value(w.ID, w.Len)
+				}
+			}
+			h := CanonicalRoot(r.ctx, contents, typ)
+			if m.find(v, typ, h) == nil {
+				m.versions[v] = append(m.versions[v], &mRoot{root: node.Root{Namespace: Namespace, Version: v, Type: typ, Hash: h}, contents: contents, parentAny: parent})
+			}
+			return nil
+		}
 		tree := r.openAt(parentRoot)
 		defer tree.Close()
 		for _, w := range op.Writes {
@@ -437,7 +454,9 @@ func (r *ndRun) apply(op NDOp) *core.Violation {
 		}
 		r.ensureReaders(nil)
 		var err error
-		r.withHooks(v, func() { err = r.ndb.Finalize(roots) })
+		if !r.modelOnly {
+			r.withHooks(v, func() { err = r.ndb.Finalize(roots) })
+		}
 		if err != nil {
 			return ndViol(r.prop, "op-error", "op-error finalize", fmt.Sprintf("%s: op %d: Finalize(version %d, %d roots) failed: %v", r.backend, r.opIdx, v, len(roots), err))
 		}
@@ -495,7 +514,9 @@ func (r *ndRun) apply(op NDOp) *core.Violation {
 		r.dropReaders(func(rd *ndReader) bool { return rd.r.root.Version == v })
 		r.ensureReaders(func(x *mRoot) bool { return x.root.Version == v })
 		var err error
-		r.withHooks(m.latest, func() { err = r.ndb.Prune(v) })
+		if !r.modelOnly {
+			r.withHooks(m.latest, func() { err = r.ndb.Prune(v) })
+		}
 		if err != nil && r.versionHasEmptyRoot(v) {
 			// Known limitation outside the property: badger's Prune visits every root of the version
 			// through the node database and fails on an explicitly committed empty root. The
@@ -787,7 +808,7 @@ func (r *ndRun) runOps(ops []NDOp, from, to int) *core.Violation {
 		var v *core.Violation
 		pv, stack := core.Guard(func() {
 			v = r.apply(ops[i])
-			if v == nil && (ops[i].K != "commit" || true) {
+			if v == nil && !r.modelOnly {
 				r.mutN++
 				if r.k.CheckEvery <= 1 || r.mutN%r.k.CheckEvery == 0 || i == to-1 {
 					v = r.fullCheck()
